@@ -975,6 +975,22 @@ where
 			"Unable to refresh outputs from the node, not scanning".into(),
 		));
 	}
+	// dropping unconfirmed outputs and pending transactions works on the records of every
+	// account, so the other accounts' records have to be current as well
+	if delete_unconfirmed {
+		let other_accounts: Vec<Identifier> = {
+			wallet_lock!(wallet_inst, w);
+			let active = w.parent_key_id();
+			w.acct_path_iter()
+				.map(|m| m.path)
+				.filter(|p| *p != active)
+				.collect()
+		};
+		for path in other_accounts {
+			wallet_lock!(wallet_inst, w);
+			updater::refresh_outputs(&mut **w, keychain_mask, &path, true)?;
+		}
+	}
 	let tip = {
 		wallet_lock!(wallet_inst, w);
 		w.w2n_client().get_chain_tip()?
